@@ -62,6 +62,9 @@ func MPDDiff(mpdOld, mpdNew []byte) (doc *etree.Document, expiration time.Time, 
 	}
 	oldRoot := dOld.Root()
 	newRoot := dNew.Root()
+	if oldRoot == nil || newRoot == nil { // e.g. an error message instead of an MPD
+		return nil, expiration, fmt.Errorf("not an XML document with a root element")
+	}
 
 	expiration, err = checkPatchConditions(oldRoot, newRoot)
 	if err != nil {
